@@ -48,4 +48,23 @@ theorem closed_refuses (sk : Skeleton) (hr : sk.bcReceiveRefusesWhenClosed = tru
   simp only [step] at hs
   (repeat' split at hs) <;> (try simp at hs) <;> (try subst hs) <;> simp_all
 
+/-- under the source fact that `Receive` fails only when closed, no receiver is ever refused for its context -/
+theorem receive_not_refusedCtx (sk : Skeleton) (ho : sk.bcReceiveErrorsOnlyClosed = true) {b b' : State} {t k x : Nat}
+    (hs : step sk b (.receive t k x) = some b') : b'.rcvs t ≠ .refusedCtx := by
+  simp only [step] at hs
+  (repeat' split at hs) <;> (try simp at hs) <;> (try subst hs) <;> simp_all
+
+/-- without it, a caller context that is done already is refused on an open broadcaster -/
+theorem done_ctx_refused (sk : Skeleton) (ho : sk.bcReceiveErrorsOnlyClosed = false) {b b' : State} {t k x : Nat}
+    (hs : step sk b (.receive t k x) = some b') (hc : b.closed = false) (hx : b.ctxs x = true) :
+    b'.rcvs t = .refusedCtx := by
+  simp only [step] at hs
+  (repeat' split at hs) <;> (try simp at hs) <;> (try subst hs) <;> simp_all
+
+/-- when `Receive` can run at all (whatever it answers) -/
+theorem receive_isSome (sk : Skeleton) (b : State) (t k x : Nat) :
+    (step sk b (.receive t k x)).isSome = decide (b.crashed = false ∧ b.lockHolder = none ∧ b.rcvs t = .absent) := by
+  simp only [step]
+  (repeat' split) <;> simp_all
+
 end Panrpc.Bc
